@@ -184,6 +184,20 @@ def createBody (strict : Bool) (schema : Option Schema) (c : CreateIn) (machine 
 
 /-! ### `revertTransaction` -/
 
+/-- First loop of the non-forced check: debit the source of every reversed
+    posting; credit its destination when `balances[destination][asset]` exists
+    (the destination is also a source of the reversed transaction in that asset).
+    `none`: `balances[source][asset]` is missing — `x.Add` on a nil `*big.Int`
+    panics (unreachable: the query is `InvolvedDestinations` of the original). -/
+def revertDebit : Balances → List Posting → Option Balances
+  | b, [] => some b
+  | b, p :: ps =>
+    match b.get? p.srcKey with
+    | none => none
+    | some _ =>
+      let b1 := b.adjust p.srcKey (· - p.amount)
+      revertDebit (if b1.contains p.dstKey then b1.adjust p.dstKey (· + p.amount) else b1) ps
+
 def revertBody (id : Nat) (force aed : Bool) (m : Meta) : Prog Payload :=
   .call (.revertTransaction id none) fun r =>
   if !r.2 then .fail .alreadyReverted else
@@ -193,9 +207,9 @@ def revertBody (id : Nat) (force aed : Bool) (m : Meta) : Prog Payload :=
   let ts := if aed then some orig.timestamp else orig.revertedAt
   let check : Option Err :=
     if force then none else
-    match revertApply bal ps with
-    | .error _ => some .panic
-    | .ok b => if anyOverdrawn b then some .insufficientFunds else none
+    match revertDebit bal ps with
+    | none => some .panic
+    | some b => if anyOverdrawn b then some .insufficientFunds else none
   match check with
   | some e => .fail e
   | none =>
